@@ -208,6 +208,12 @@ func Borrow(w *load.World, c *core.Collector) {
 		// a parameter: nothing more; a call result is handled at the call
 	}
 	// --- sinks
+	txLits := map[*ssa.Function]bool{}
+	for _, cb := range txCallbacks(w) {
+		if cb.Fn != nil && cb.Fn.Parent() != nil {
+			txLits[cb.Fn] = true
+		}
+	}
 	type hit struct{ where, what string }
 	per := map[*ssa.Function][]hit{}
 	for _, f := range w.Fns {
@@ -238,6 +244,12 @@ func Borrow(w *load.World, c *core.Collector) {
 					continue
 				}
 				touches[f] = true
+				// assigned to a variable of the function that runs the transaction, from inside the
+				// transaction's callback: the variable outlives the transaction
+				if fv, isFV := addr.(*ssa.FreeVar); isFV && kind == "store" && txLits[f] {
+					per[f] = append(per[f], hit{w.At(in), fmt.Sprintf("the variable %s of the enclosing function, which is still there when the transaction has ended, keeps memory borrowed from %s", fv.Name(), why)})
+					continue
+				}
 				root, desc := storeRoot(addr)
 				if kind == "store" {
 					if _, isAlloc := addr.(*ssa.Alloc); isAlloc {
@@ -275,7 +287,7 @@ func Borrow(w *load.World, c *core.Collector) {
 		props := []string{"C04", "C08"}
 		switch {
 		case strings.Contains(key, "cluster."):
-			props = []string{"C14"} // the node database: collection records moved at start-up
+			props = []string{"C14", "C16"} // the node database: collection records moved at start-up, looked up per tenant
 		case strings.Contains(key, "shard.Shard") || strings.Contains(key, "pointstore."):
 			props = []string{"C09", "C08"} // point documents handed to searches and to the index pipeline
 		}
